@@ -820,6 +820,7 @@ def run_check(prop_id, tier='quick', seed=0, budget_s=None, procs=None, replay_s
     known = []
     unconfirmed = []
     replayed = {}
+    seen = {}
     ctxm = mp.get_context('fork')
     pool = ctxm.Pool(processes=min(procs, max(1, len(pending))) if len(pending) < procs else procs)
     inflight = []
@@ -856,7 +857,12 @@ def run_check(prop_id, tier='quick', seed=0, budget_s=None, procs=None, replay_s
                     if stop:
                         break           # one confirmed violation is enough: do not spend minutes replaying the rest
                     k = (cex['label'], key)
-                    if k in replayed and replayed[k] >= meta.get("replays_per_label", 8):
+                    # which counterexamples of a (claim, job) are replayed: the first four, then a geometric schedule (6th, 8th, 12th, 16th, 24th, ...)
+                    # so that late paths get their turn too when the early ones sit on an unrealistic point; at most `replays_per_label` replays
+                    seen[k] = seen.get(k, 0) + 1
+                    n_seen = seen[k]
+                    due = n_seen <= 4 or (n_seen & (n_seen - 1)) == 0 or ((n_seen % 3 == 0) and ((n_seen // 3) & (n_seen // 3 - 1)) == 0)
+                    if not due or replayed.get(k, 0) >= meta.get("replays_per_label", 12):
                         continue
                     replayed[k] = replayed.get(k, 0) + 1
                     try:
